@@ -259,13 +259,26 @@ def run(tier, seed, t0):
     for y in extract.YEARS:
         tasks.append(Task(f'C12/{y}/inputforms', input_forms, y))
         tasks.append(Task(f'C12/{y}/linetypes', line_types, y, weight=3))
+    # what is stored for a line is exactly what its field type's value() returns: the storing statement of Solver._attempt_field
+    from . import solver_props as sp
+    from . import solver_units as su
+    tasks.append(Task('unit/_attempt_field', sp.unit_runner, '_attempt_field', weight=4))
     obs = oblig.run_tasks(tasks)
+    keep, solver_part = [], []
+    for o in obs:
+        if o.id.startswith('SOLVER/'):
+            if any(k in o.id for k in ('stored-value-is-the-evaluation-result', 'evaluated-against', 'values-only-grow', 'subset')):
+                o.id = o.id.replace('SOLVER/', 'C12/solver/')
+                solver_part.append(o)
+        else:
+            keep.append(o)
+    obs = keep + su.finish_with_refutation('C12', solver_part, lambda o: True, seed, tier)
     return oblig.finish('C12', tier, seed, obs, t0,
                         functions=['fields.py:TypedField.value', 'fields.py:FloatField.value', 'fields.py:StringField.__init__', 'fields.py:BooleanField.__init__',
-                                   'fields.py:IntegerField.__init__', 'fields.py:FloatField.__init__', 'fields.py:EnumField.__init__', 'form.py:InputForm.__init__'],
+                                   'fields.py:IntegerField.__init__', 'fields.py:FloatField.__init__', 'fields.py:EnumField.__init__', 'form.py:InputForm.__init__', 'solver.py:Solver._attempt_field (storing statement)'],
                         trusted_base=base.TRUSTED,
                         assumptions=base.assumptions('A-PY', 'A-REAL', 'A-BUILTIN') + [
                             'str.strip is an uninterpreted function; "blank" means strip(s) == ""',
-                            'storage happens only through Solver._attempt_field (self._v[name] = field.value(...)): obligation of C03',
+                            'storage happens only through Solver._attempt_field (self._v[name] = field.value(...)): its unit is included (C12/solver/*)',
                             'Python value kinds considered for a definition result: None, str, bool, int, float, member of the declared enum, member of another enum, list'],
                         checker_cmd='./check C12', min_obligations=70)
